@@ -153,7 +153,8 @@ class PathBudget(AnalysisError):
 
 
 class ABPE:
-    def __init__(self, loop_iters=1, max_paths=60000, mutator_names=(), keep=None):
+    def __init__(self, loop_iters=1, max_paths=60000, mutator_names=(), keep=None, const_resolver=None):
+        self.const_resolver = const_resolver
         self.loop_iters = loop_iters
         self.max_paths = max_paths
         self.paths = 0
@@ -187,6 +188,10 @@ class ABPE:
                     return v[1]
                 return repr(v[1])
             n = st.ver.get(e.id, 0)
+            if n == 0 and self.const_resolver is not None:
+                c = self.const_resolver(e.id)
+                if c is not None and isinstance(c[0], (str, bytes, int)) and not isinstance(c[0], bool):
+                    return repr(c[0])
             return e.id if n == 0 else '%s#%d' % (e.id, n)
         if isinstance(e, ast.Constant):
             return repr(e.value)
@@ -252,6 +257,10 @@ class ABPE:
             v = st.env.get(e.id)
             if v is not None and v[0] in ('const', 'bool'):
                 return (v[1],)
+            if v is None and self.const_resolver is not None and not st.ver.get(e.id):
+                c = self.const_resolver(e.id)
+                if c is not None:
+                    return c
         k = self._attr_key(e)
         if k is not None:
             v = st.env.get(k)
@@ -536,6 +545,10 @@ class ABPE:
             yield st.env[k], st
             return
         self.record_calls(e, st)
+        c0 = self.const(e, st)
+        if c0 is not None and isinstance(e, ast.Name):
+            yield ('const', c0[0]), st
+            return
         if isinstance(e, ast.BinOp):
             l = self.lin(e, st)
             if l is not None and l[2]:
@@ -613,6 +626,30 @@ class ABPE:
                 args = [self.sym(a, st) for a in c.args] + ['%s=%s' % (k.arg, self.sym(k.value, st)) for k in c.keywords]
                 st.events.append(Event('delegate', self.sym(c, st), s, name, None, args))
                 yield 'fall', st
+                return
+            rng = s.iter
+            if isinstance(rng, ast.Call) and isinstance(rng.func, ast.Name) and rng.func.id == 'range' and 1 <= len(rng.args) <= 2 \
+                    and isinstance(s.target, ast.Name) and all(self.lin(a, st) is not None for a in rng.args):
+                lo_e = rng.args[0] if len(rng.args) == 2 else ast.Constant(value=0)
+                hi_e = rng.args[-1]
+                lo0 = self.lin(lo_e, st)
+                hi0 = self.lin(hi_e, st)
+                tname = s.target.id
+
+                def enter_range(st_, k=[0]):
+                    # iteration number = how often the target was bound on this path
+                    n = st_.ver.get('#range:%d' % id(s), 0)
+                    cur = ({kk: vv for kk, vv in lo0[0].items()}, lo0[1] + n, True)
+                    for b, s2 in self.lin_compare(cur, (hi0[0], hi0[1], True), ast.Lt(), st_):
+                        if b:
+                            s2.ver['#range:%d' % id(s)] = n + 1
+                            s2.bump(tname)
+                            if not cur[0]:
+                                s2.env[tname] = ('const', cur[1])
+                            else:
+                                s2.env[tname] = ('lin', '(%s Add %d)' % (self.sym(lo_e, st), n) if n else self.sym(lo_e, st), cur[0], cur[1])
+                        yield b, s2
+                yield from self.loop(s, st, enter_range, self.loop_iters)
                 return
             self.record_calls(s.iter, st)
             key = 'more:' + self.sym(s.iter, st)
